@@ -202,4 +202,504 @@ theorem nwAll_eq_wordAll (n : Nat) (cbits : List Nat) (hlen : cbits.length = n) 
     rw [hany]
     simp [hj, Bool.and_comm]
 
+/-! ### 2. the product of all single-qubit projectors -/
+
+section proj
+variable {α P : Type} [CommRing α] [Amp α P] [SimAmp α]
+
+/-- the basis state `|idx⟩` -/
+def basisV (n idx : Nat) : List α := (List.range (2 ^ n)).map fun r => if r = idx then (1 : α) else 0
+
+theorem basisV_length (n idx : Nat) : (basisV n idx : List α).length = 2 ^ n := by simp [basisV]
+
+theorem foldl_project (n : Nat) (outs : Nat → Bool) : ∀ (qs : List Nat) (ψ : List α),
+    qs.foldl (fun φ q => project n q (outs q) φ) ψ =
+      ψ.zipIdx.map fun ar => if qs.all (fun q => (qbit n q ar.2 == 1) == outs q) then ar.1 else 0 := by
+  intro qs
+  induction qs with
+  | nil =>
+    intro ψ
+    simp only [List.foldl_nil, List.all_nil, if_true]
+    exact (List.zipIdx_map_fst 0 ψ).symm
+  | cons q qs ih =>
+    intro ψ
+    rw [List.foldl_cons, ih]
+    apply List.ext_getElem
+    · simp [project]
+    · intro i h1 h2
+      simp only [List.getElem_map, List.getElem_zipIdx, Nat.zero_add, project, List.all_cons]
+      by_cases hc : ((qbit n q i == 1) == outs q) = true
+      · simp [hc]
+      · simp [hc]
+
+theorem measureAllTo_Z (n : Nat) (outs : Nat → Bool) (ψ : List α) :
+    measureAllTo (P := P) n .Z outs ψ = (List.range n).foldl (fun φ q => project n q (outs q) φ) ψ := rfl
+
+theorem all_qbit_iff (n r idx : Nat) (hr : r < 2 ^ n) (hi : idx < 2 ^ n) :
+    (List.range n).all (fun q => (qbit n q r == 1) == (qbit n q idx == 1)) = decide (r = idx) := by
+  rw [Bool.eq_iff_iff]
+  simp only [List.all_eq_true, List.mem_range, decide_eq_true_eq, beq_iff_eq, qbit_testBit]
+  constructor
+  · intro h
+    apply Nat.eq_of_testBit_eq
+    intro j
+    by_cases hj : j < n
+    · have := h (n - 1 - j) (by omega)
+      rw [show n - 1 - (n - 1 - j) = j by omega] at this
+      exact this
+    · have h1 : r < 2 ^ j := Nat.lt_of_lt_of_le hr (Nat.pow_le_pow_right (by omega) (by omega))
+      have h2 : idx < 2 ^ j := Nat.lt_of_lt_of_le hi (Nat.pow_le_pow_right (by omega) (by omega))
+      rw [Nat.testBit_lt_two_pow h1, Nat.testBit_lt_two_pow h2]
+  · rintro rfl q _; rfl
+
+/-- projecting every qubit on its value in `idx` leaves the amplitude of `|idx⟩` -/
+theorem measureAllTo_basis (n idx : Nat) (hi : idx < 2 ^ n) (ψ : List α) (hψ : ψ.length = 2 ^ n) :
+    measureAllTo (P := P) n .Z (fun q => qbit n q idx == 1) ψ = (basisV n idx).map (· * ψ.getD idx 0) := by
+  rw [measureAllTo_Z, foldl_project]
+  apply List.ext_getElem
+  · simp [basisV, hψ]
+  · intro r h1 h2
+    have hr : r < 2 ^ n := by simpa [hψ] using h1
+    simp only [List.getElem_map, List.getElem_zipIdx, Nat.zero_add, basisV, List.getElem_range]
+    rw [all_qbit_iff n r idx hr hi]
+    by_cases h : r = idx
+    · subst h
+      simp [List.getD_eq_getElem?_getD, hψ ▸ hr]
+    · simp [h]
+
+end proj
+
+/-! ### 3. the multinomial theorem for the categorical node -/
+
+section cat
+variable {α R : Type} [CommRing R] [SimAmp α]
+variable (ord : List (Nat × Nat) → List (Nat × Nat)) (toR : α → R)
+
+/-- `∏_i A(i)^{t_i}` (indices from offset `i`) -/
+def tallyProd (A : Nat → R) : List Nat → Nat → R
+  | [], _ => 1
+  | t :: ts, i => A i ^ t * tallyProd A ts (i + 1)
+
+theorem bump_length : ∀ (t : List Nat) (j : Nat), (bump t j).length = t.length
+  | [], _ => rfl
+  | _ :: _, 0 => rfl
+  | _ :: ts, j + 1 => by simp [bump, bump_length ts j]
+
+theorem bump_sum : ∀ (t : List Nat) (j : Nat), j < t.length → (bump t j).sum = t.sum + 1
+  | [], _, h => by simp at h
+  | _ :: _, 0, _ => by simp [bump]; omega
+  | _ :: ts, j + 1, h => by
+    have := bump_sum ts j (by simpa using h)
+    simp [bump, this]; omega
+
+theorem tallyProd_bump (A : Nat → R) : ∀ (t : List Nat) (j i : Nat), j < t.length →
+    tallyProd A (bump t j) i = A (i + j) * tallyProd A t i
+  | [], _, _, h => by simp at h
+  | _ :: _, 0, _, _ => by simp [bump, tallyProd, pow_succ]; ring
+  | _ :: ts, j + 1, i, h => by
+    have := tallyProd_bump A ts j (i + 1) (by simpa using h)
+    simp only [bump, tallyProd, this]
+    rw [show i + 1 + j = i + (j + 1) by omega]; ring
+
+theorem tallyProd_zeros (A : Nat → R) : ∀ (m i : Nat), tallyProd A (List.replicate m 0) i = 1
+  | 0, _ => rfl
+  | m + 1, i => by simp [List.replicate_succ, tallyProd, tallyProd_zeros A m (i + 1)]
+
+theorem catSum_multinomial (ws : List α) (A : Nat → R) (C : R) (g : List Nat → R) : ∀ (c : Nat) (t : List Nat),
+    t.length = ws.length →
+    (∀ t', t'.length = ws.length → t'.sum = t.sum + c → g t' = C * tallyProd A t' 0) →
+    catSum toR ws g c t =
+      C * tallyProd A t 0 * ((ws.zipIdx.map fun wi => toR wi.1 * A wi.2).sum) ^ c := by
+  intro c
+  induction c with
+  | zero =>
+    intro t hl h
+    simp only [catSum, pow_zero, mul_one]
+    exact h t hl (by simp)
+  | succ c ih =>
+    intro t hl h
+    have hmap : (ws.zipIdx.map fun wi => toR wi.1 * catSum toR ws g c (bump t wi.2)) =
+        ws.zipIdx.map fun wi => (C * tallyProd A t 0 * ((ws.zipIdx.map fun wi => toR wi.1 * A wi.2).sum) ^ c) *
+          (toR wi.1 * A wi.2) := by
+      apply List.map_congr_left
+      intro wi hwi
+      obtain ⟨_, hk2, _⟩ := List.mem_zipIdx hwi
+      have hj : wi.2 < t.length := by omega
+      rw [ih (bump t wi.2) (by rw [bump_length, hl]) (by
+        intro t' h1 h2
+        exact h t' h1 (by rw [h2, bump_sum t wi.2 hj]; omega))]
+      rw [tallyProd_bump A t wi.2 0 hj, Nat.zero_add]
+      ring
+    simp only [catSum]
+    rw [hmap, List.sum_map_mul_left]
+    ring
+
+/-- the product over the ranges of the tally weights; an item is (weights, count, A) -/
+def tprod : List (List α × Nat × (Nat → R)) → List (List Nat) → R
+  | it :: l, t :: ts => tallyProd it.2.2 t 0 * tprod l ts
+  | [], [] => 1
+  | _, _ => 0
+
+/-- the `(index, count)` list handed to the continuation for the tallies `ts` (one per range) -/
+def catPieces (ts : List (List Nat)) : List (Nat × Nat) := ts.flatMap fun t => ord (tallyPairs t)
+
+theorem sampleAll_expect {β : Type} (f : β → R) : ∀ (l : List (List α × Nat × (Nat → R)))
+    (k : List (Nat × Nat) → Prog α β) (C : R), (∀ it ∈ l, SimAmp.weightsOk it.1 = true) →
+    (∀ ts, List.Forall₂ (fun (it : List α × Nat × (Nat → R)) (t : List Nat) => t.length = it.1.length ∧ t.sum = it.2.1) l ts →
+      expectOrd ord toR (k (catPieces ord ts)) f = C * tprod l ts) →
+    expectOrd ord toR (VecState.sampleAll (l.map fun it => (it.1, it.2.1)) k) f =
+      C * (l.map fun it => ((it.1.zipIdx.map fun wi => toR wi.1 * it.2.2 wi.2).sum) ^ it.2.1).prod := by
+  intro l
+  induction l with
+  | nil =>
+    intro k C _ h
+    have := h [] List.Forall₂.nil
+    simpa [VecState.sampleAll, catPieces, tprod] using this
+  | cons it l ih =>
+    intro k C hok h
+    simp only [List.map_cons, VecState.sampleAll]
+    rw [if_neg (by simp [hok it (by simp)]), expectOrd_categorical]
+    rw [catSum_multinomial toR it.1 it.2.2
+      (C * (l.map fun it => ((it.1.zipIdx.map fun wi => toR wi.1 * it.2.2 wi.2).sum) ^ it.2.1).prod) _ it.2.1
+      (List.replicate it.1.length 0) (by simp)]
+    · rw [tallyProd_zeros, List.prod_cons]; ring
+    · intro t' h1 h2
+      rw [ih (fun ls => k (ord (tallyPairs t') ++ ls)) (C * tallyProd it.2.2 t' 0)
+        (fun x hx => hok x (by simp [hx]))]
+      · ring
+      · intro ts hts
+        have := h (t' :: ts) (List.Forall₂.cons ⟨h1, by simpa using h2⟩ hts)
+        simp only [catPieces, List.flatMap_cons, tprod] at this ⊢
+        rw [this]; ring
+
+end cat
+
+/-! ### 4. the ranges view of `measure_all_into_helper` -/
+
+theorem mem_tallyPairsFrom : ∀ (t : List Nat) (i : Nat) (ic : Nat × Nat), ic ∈ tallyPairsFrom t i →
+    0 < ic.2 ∧ i ≤ ic.1 ∧ ic.1 < i + t.length
+  | [], _, _, h => by simp [tallyPairsFrom] at h
+  | t :: ts, i, ic, h => by
+    simp only [tallyPairsFrom] at h
+    split at h
+    · have := mem_tallyPairsFrom ts (i + 1) ic h
+      simp only [List.length_cons]; omega
+    · rcases List.mem_cons.mp h with rfl | h
+      · simp only [List.length_cons]; omega
+      · have := mem_tallyPairsFrom ts (i + 1) ic h
+        simp only [List.length_cons]; omega
+
+theorem tallyPairsFrom_sum : ∀ (t : List Nat) (i : Nat), ((tallyPairsFrom t i).map (·.2)).sum = t.sum
+  | [], _ => rfl
+  | t :: ts, i => by
+    simp only [tallyPairsFrom]
+    split
+    · rename_i h; simp [tallyPairsFrom_sum ts (i + 1), h]
+    · simp [tallyPairsFrom_sum ts (i + 1)]
+
+theorem tallyPairsFrom_prod {R : Type} [CommRing R] (A : Nat → R) : ∀ (t : List Nat) (i : Nat),
+    ((tallyPairsFrom t i).map fun ic => A ic.1 ^ ic.2).prod = tallyProd A t i
+  | [], _ => rfl
+  | t :: ts, i => by
+    simp only [tallyPairsFrom, tallyProd]
+    split
+    · rename_i h; simp [tallyPairsFrom_prod A ts (i + 1), h]
+    · simp [tallyPairsFrom_prod A ts (i + 1)]
+
+theorem maskWrite_mid (pre tail : List Nat) (c w : Nat) (G : Nat → Nat) :
+    ((pre ++ List.replicate c w ++ tail).zipIdx.map fun (wi : Nat × Nat) =>
+      if pre.length ≤ wi.2 ∧ wi.2 < pre.length + c then G wi.1 else wi.1) =
+    pre ++ List.replicate c (G w) ++ tail := by
+  apply List.ext_getElem
+  · simp
+  · intro i h1 h2
+    simp only [List.getElem_map, List.getElem_zipIdx, Nat.zero_add]
+    simp only [List.length_map, List.length_zipIdx, List.length_append, List.length_replicate] at h1
+    by_cases hi : i < pre.length
+    · rw [if_neg (by omega)]
+      simp [List.getElem_append, hi]
+    · by_cases hi2 : i < pre.length + c
+      · rw [if_pos (by omega)]
+        simp [List.getElem_append, hi, hi2, show i - pre.length < c by omega]
+      · rw [if_neg (by omega)]
+        simp [List.getElem_append, hi, hi2, show ¬ i - pre.length < c by omega]
+
+/-- one iteration of the register loop of `measure_all_into_helper` -/
+def allStep (n : Nat) (cbits : List Nat) (st : List Nat × Nat) (ic : Nat × Nat) : List Nat × Nat :=
+  (st.1.zipIdx.map fun wi => if st.2 ≤ wi.2 ∧ wi.2 < st.2 + ic.2 then nwAll n cbits wi.1 ic.1 else wi.1, st.2 + ic.2)
+
+theorem allStep_pieces (n : Nat) (cbits : List Nat) (w : Nat) : ∀ (pcs : List (Nat × Nat)) (pre tail : List Nat),
+    pcs.foldl (allStep n cbits) (pre ++ List.replicate ((pcs.map (·.2)).sum) w ++ tail, pre.length) =
+      (pre ++ pcs.flatMap (fun ic => List.replicate ic.2 (nwAll n cbits w ic.1)) ++ tail,
+        pre.length + (pcs.map (·.2)).sum) := by
+  intro pcs
+  induction pcs with
+  | nil => intro pre tail; simp
+  | cons ic pcs ih =>
+    intro pre tail
+    simp only [List.map_cons, List.sum_cons, List.foldl_cons, List.flatMap_cons]
+    have h1 : allStep n cbits (pre ++ List.replicate (ic.2 + (pcs.map (·.2)).sum) w ++ tail, pre.length) ic =
+        ((pre ++ List.replicate ic.2 (nwAll n cbits w ic.1)) ++ List.replicate ((pcs.map (·.2)).sum) w ++ tail,
+          (pre ++ List.replicate ic.2 (nwAll n cbits w ic.1)).length) := by
+      simp only [allStep]
+      have := maskWrite_mid pre (List.replicate ((pcs.map (·.2)).sum) w ++ tail) ic.2 w (fun x => nwAll n cbits x ic.1)
+      rw [List.replicate_add, ← List.append_assoc, List.append_assoc (pre ++ _)]
+      rw [this]
+      simp [List.append_assoc]
+    rw [h1, ih]
+    simp [List.append_assoc, Nat.add_assoc]
+
+section view
+variable {α P : Type} [CommRing α] [Amp α P] [SimAmp α]
+variable (ord : List (Nat × Nat) → List (Nat × Nat))
+
+/-- the sub-ranges of one range after the collapse, one per `(basis index, count)` piece -/
+def collapseRng (n : Nat) (cbits : List Nat) (r : Rng α) (pcs : List (Nat × Nat)) : List (Rng α) :=
+  pcs.map fun ic => (ic.2, basisV n ic.1, nwAll n cbits r.2.2 ic.1)
+
+def collapseAll (n : Nat) (cbits : List Nat) : List (Rng α) → List (List Nat) → List (Rng α)
+  | r :: rs, t :: ts => collapseRng n cbits r (ord (tallyPairs t)) ++ collapseAll n cbits rs ts
+  | _, _ => []
+
+theorem mkReg_collapseRng (n : Nat) (cbits : List Nat) (r : Rng α) (pcs : List (Nat × Nat)) :
+    mkReg (collapseRng n cbits r pcs) = pcs.flatMap fun ic => List.replicate ic.2 (nwAll n cbits r.2.2 ic.1) := by
+  simp [mkReg, collapseRng, List.flatMap_map]
+
+/-- the tallies of a `measure_all`: one per range, adding up to the range's count -/
+def TalliesOK (n : Nat) (rs : List (Rng α)) (ts : List (List Nat)) : Prop :=
+  List.Forall₂ (fun (r : Rng α) (t : List Nat) => t.length = 2 ^ n ∧ t.sum = r.1) rs ts
+
+variable {ord} (hord : ∀ l, (ord l).Perm l)
+include hord
+
+theorem pieces_sum (t : List Nat) : ((ord (tallyPairs t)).map (·.2)).sum = t.sum := by
+  rw [((hord _).map _).sum_eq]
+  exact tallyPairsFrom_sum t 0
+
+theorem allStep_ranges (n : Nat) (cbits : List Nat) : ∀ {rs : List (Rng α)} {ts : List (List Nat)},
+    TalliesOK n rs ts → ∀ (pre tail : List Nat),
+    (catPieces ord ts).foldl (allStep n cbits) (pre ++ mkReg rs ++ tail, pre.length) =
+      (pre ++ mkReg (collapseAll ord n cbits rs ts) ++ tail, pre.length + (rs.map (·.1)).sum) := by
+  intro rs ts hv
+  induction hv with
+  | nil => intro pre tail; simp [catPieces, collapseAll, mkReg]
+  | @cons r t rs ts hrt _ ih =>
+    intro pre tail
+    have hs := pieces_sum hord t
+    simp only [catPieces, List.flatMap_cons, List.foldl_append, collapseAll, mkReg_append, mkReg_collapseRng]
+    have hreg : mkReg (r :: rs) = List.replicate ((ord (tallyPairs t)).map (·.2)).sum r.2.2 ++ mkReg rs := by
+      rw [hs, hrt.2]; simp [mkReg]
+    rw [hreg, ← List.append_assoc, List.append_assoc (pre ++ _), allStep_pieces]
+    have := ih (pre ++ (ord (tallyPairs t)).flatMap fun ic => List.replicate ic.2 (nwAll n cbits r.2.2 ic.1)) tail
+    simp only [catPieces] at this
+    have hl : (pre ++ (ord (tallyPairs t)).flatMap fun ic => List.replicate ic.2 (nwAll n cbits r.2.2 ic.1)).length =
+        pre.length + ((ord (tallyPairs t)).map (·.2)).sum := by
+      simp [List.length_flatMap]
+    rw [hl] at this
+    rw [← List.append_assoc, this, hs, hrt.2]
+    simp [List.append_assoc, Nat.add_assoc]
+
+theorem collapseAll_counts (n : Nat) (cbits : List Nat) : ∀ (rs : List (Rng α)) (ts : List (List Nat)),
+    rs.length = ts.length →
+    (collapseAll ord n cbits rs ts).map (·.1) = (catPieces ord ts).map (·.2) ∧
+    (collapseAll ord n cbits rs ts).map (·.2.1) = (catPieces ord ts).map fun ic => (basisV n ic.1 : List α)
+  | [], [], _ => by simp [collapseAll, catPieces]
+  | r :: rs, t :: ts, h => by
+    have := collapseAll_counts n cbits rs ts (by simpa using h)
+    simp only [collapseAll, catPieces, List.flatMap_cons, List.map_append] at this ⊢
+    rw [this.1, this.2]
+    simp [collapseRng, List.map_map, Function.comp_def]
+  | [], _ :: _, h => by simp at h
+  | _ :: _, [], h => by simp at h
+
+theorem mem_collapseAll (n : Nat) (cbits : List Nat) : ∀ {rs : List (Rng α)} {ts : List (List Nat)},
+    TalliesOK n rs ts → ∀ r' ∈ collapseAll ord n cbits rs ts,
+    0 < r'.1 ∧ ∃ idx, idx < 2 ^ n ∧ r'.2.1 = basisV n idx := by
+  intro rs ts hv
+  induction hv with
+  | nil => intro r' h; simp [collapseAll] at h
+  | @cons r t rs ts hrt _ ih =>
+    intro r' h
+    simp only [collapseAll, List.mem_append] at h
+    rcases h with h | h
+    · simp only [collapseRng, List.mem_map] at h
+      obtain ⟨ic, hic, rfl⟩ := h
+      have := mem_tallyPairsFrom t 0 ic ((hord _).mem_iff.mp hic)
+      exact ⟨this.1, ic.1, by rw [← hrt.1]; omega, rfl⟩
+    · exact ih r' h
+
+theorem collapseAll_sum (n : Nat) (cbits : List Nat) : ∀ {rs : List (Rng α)} {ts : List (List Nat)},
+    TalliesOK n rs ts → ((collapseAll ord n cbits rs ts).map (·.1)).sum = (rs.map (·.1)).sum := by
+  intro rs ts hv
+  induction hv with
+  | nil => simp [collapseAll]
+  | @cons r t rs ts hrt _ ih =>
+    simp only [collapseAll, List.map_append, List.sum_append, ih, List.map_cons, List.sum_cons]
+    congr 1
+    simp only [collapseRng, List.map_map, Function.comp_def]
+    rw [pieces_sum hord t, hrt.2]
+
+theorem value_collapseAll {R : Type} [CommRing R] (n : Nat) (cbits : List Nat) (g : List α × Nat → R) :
+    ∀ {rs : List (Rng α)} {ts : List (List Nat)}, TalliesOK n rs ts →
+    value g (collapseAll ord n cbits rs ts) =
+      tprod (rs.map fun r => (r.2.1.map SimAmp.normSq, r.1,
+        fun idx => g ((basisV n idx : List α), nwAll n cbits r.2.2 idx))) ts := by
+  intro rs ts hv
+  induction hv with
+  | nil => simp [collapseAll, value, tprod]
+  | @cons r t rs ts hrt _ ih =>
+    simp only [collapseAll, value_append, ih, List.map_cons, tprod]
+    congr 1
+    simp only [value, collapseRng, List.map_map, Function.comp_def]
+    rw [((hord (tallyPairs t)).map _).prod_eq]
+    exact tallyPairsFrom_prod (fun idx => g ((basisV n idx : List α), nwAll n cbits r.2.2 idx)) t 0
+
+omit hord in
+theorem normSqSum_basisV (hA : LawfulAmp α P) {nz : α → Prop} (hS : LawfulSim α P nz) (n idx : Nat)
+    (hi : idx < 2 ^ n) : normSqSum (basisV n idx : List α) = 1 := by
+  have h1 : SimAmp.normSq (1 : α) = 1 := by rw [hS.normSq_eq, hA.conj_one, one_mul]
+  have h0 : SimAmp.normSq (0 : α) = 0 := hS.normSq_zero
+  have key : ∀ m, ((List.range m).map fun r => SimAmp.normSq (if r = idx then (1 : α) else 0)).sum =
+      if idx < m then 1 else 0 := by
+    intro m
+    induction m with
+    | zero => simp
+    | succ m ih =>
+      rw [List.range_succ, List.map_append, List.sum_append, ih]
+      by_cases h : idx < m
+      · have : m ≠ idx := by omega
+        simp [h, this, h0, show idx < m + 1 by omega]
+      · by_cases h2 : idx = m
+        · subst h2; simp [h1]
+        · have : ¬ idx < m + 1 := by omega
+          simp [h, this, h0, Ne.symm h2]
+  simp only [normSqSum, basisV, List.map_map, Function.comp_def]
+  rw [key, if_pos hi]
+
+theorem good_collapseAll {N : Nat} (hA : LawfulAmp α P) {nz : α → Prop} (hS : LawfulSim α P nz) (n : Nat)
+    (cbits : List Nat) {rs : List (Rng α)} {ts : List (List Nat)} (hg : Good n N rs) (hv : TalliesOK n rs ts) :
+    Good n N (collapseAll ord n cbits rs ts) := by
+  refine ⟨⟨?_, ?_, ?_⟩, ?_⟩
+  · intro r' h; exact (mem_collapseAll hord n cbits hv r' h).1
+  · intro r' h
+    obtain ⟨_, idx, _, e⟩ := mem_collapseAll hord n cbits hv r' h
+    rw [e, basisV_length]
+  · rw [collapseAll_sum hord n cbits hv, hg.sum]
+  · intro r' h
+    obtain ⟨_, idx, hi, e⟩ := mem_collapseAll hord n cbits hv r' h
+    rw [e]; exact normSqSum_basisV hA hS n idx hi
+
+/-- `measure_all_into_helper` (collapsing) on a homogeneous state: one categorical draw per range, then every
+range is replaced by one basis-state sub-range per distinct outcome -/
+theorem measureAll_eq {n N : Nat} {rs : List (Rng α)} (h : Shape n N rs) {cbits : List Nat}
+    (hlen : cbits.length = n) (hlt : ∀ c ∈ cbits, c < 64) :
+    ∃ body : List (Nat × Nat) → Prog α (VecState α × List Nat),
+      VecState.measureAllHelper (mkState n N rs) cbits (mkReg rs) true =
+        VecState.sampleAll (rs.map fun r => (r.2.1.map SimAmp.normSq, r.1)) body ∧
+      ∀ ts, TalliesOK n rs ts →
+        body (catPieces ord ts) = .pure (mkState n N (collapseAll ord n cbits rs ts),
+          mkReg (collapseAll ord n cbits rs ts)) := by
+  refine ⟨fun stateCounts =>
+      if ¬ cbits.all shiftOk then Prog.panic "1u64 << b" else
+      let res' := (stateCounts.foldl (allStep n cbits) (mkReg rs, 0)).1
+      .pure ({ (mkState n N rs) with
+        states := VecState.ofColumns n (stateCounts.map fun ic => (basisV n ic.1 : List α)),
+        counts := stateCounts.map (·.2) }, res'), ?_, ?_⟩
+  · unfold VecState.measureAllHelper
+    rw [if_neg (by rw [mkReg_length, h.sum]; simp [mkState])]
+    rw [if_neg (by simp [mkState, hlen])]
+    have hcols : ((List.range (mkState n N rs).nrCols).map fun k =>
+        (((mkState n N rs).column k).map SimAmp.normSq, (mkState n N rs).counts.getD k 0)) =
+        rs.map fun r => (r.2.1.map SimAmp.normSq, r.1) := by
+      apply List.ext_getElem
+      · simp [VecState.nrCols, mkState]
+      · intro k h1 h2
+        have hk : k < rs.length := by simpa [VecState.nrCols, mkState] using h1
+        simp only [List.getElem_map, List.getElem_range]
+        rw [column_mkState h k hk]
+        simp [mkState, List.getD_eq_getElem?_getD, hk]
+    simp only [hcols]
+    rfl
+  · intro ts hv
+    have hall : cbits.all shiftOk = true := by simpa [shiftOk] using hlt
+    simp only [hall, not_true_eq_false, if_false]
+    have := allStep_ranges hord n cbits hv [] []
+    simp only [List.nil_append, List.append_nil, List.length_nil] at this
+    rw [this]
+    have hc := collapseAll_counts hord n cbits rs ts (by
+      have : ∀ {l1 : List (Rng α)} {l2 : List (List Nat)}, TalliesOK n l1 l2 → l1.length = l2.length := by
+        intro l1 l2 hh; induction hh with
+        | nil => rfl
+        | cons _ _ ih => simp [ih]
+      exact this hv)
+    simp only [mkState, hc.1, hc.2]
+end view
+
+/-! ### 5. the step lemma -/
+
+theorem forall₂_imp_mem {β γ : Type} {R S : β → γ → Prop} : ∀ {l : List β} {l' : List γ},
+    (∀ a ∈ l, ∀ b, R a b → S a b) → List.Forall₂ R l l' → List.Forall₂ S l l' := by
+  intro l l' h hv
+  induction hv with
+  | nil => exact .nil
+  | cons hab _ ih => exact .cons (h _ (by simp) _ hab) (ih (fun a ha => h a (by simp [ha])))
+
+section step
+variable {α P R : Type} [CommRing α] [Amp α P] [SimAmp α] [CommRing R] {nz : α → Prop} {n N : Nat}
+variable {valid : GateTerm P → List Nat → Prop}
+variable {ord : List (Nat × Nat) → List (Nat × Nat)} (hord : ∀ l, (ord l).Perm l) (toR : α →+* R)
+include hord
+
+/-- the per-range sum of the categorical step is the `measure_all` clause of `stepGf` -/
+theorem measureAll_sum_eq (H : Hyps α P nz n valid) {cbits : List Nat} (hlen : cbits.length = n)
+    (hnd : cbits.Nodup) (hlt : ∀ c ∈ cbits, c < 64) {g : List α × Nat → R} (hg : Scales (P := P) toR g)
+    (ψ : List α) (hψ : ψ.length = 2 ^ n) (w : Nat) :
+    ((ψ.map SimAmp.normSq).zipIdx.map fun wi => toR wi.1 * g ((basisV n wi.2 : List α), nwAll n cbits w wi.2)).sum =
+      stepGf (P := P) n (.measureAll cbits .Z) g (ψ, w) := by
+  simp only [stepGf]
+  congr 1
+  apply List.ext_getElem
+  · simp [hψ]
+  · intro i h1 h2
+    have hi : i < 2 ^ n := by simpa using h2
+    have hi' : i < ψ.length := by rw [hψ]; exact hi
+    simp only [List.getElem_map, List.getElem_zipIdx, Nat.zero_add, List.getElem_range]
+    rw [measureAllTo_basis (P := P) n i hi ψ hψ, hg, H.sim.normSq_eq, nwAll_eq_wordAll n cbits hlen hnd hlt]
+    simp [List.getD_eq_getElem?_getD, hi']
+
+/-- **`measure_all` in the computational basis** -/
+theorem measureAll_step (H : Hyps α P nz n valid) {rs : List (Rng α)} (hgood : Good n N rs) {cbits : List Nat}
+    (hlen : cbits.length = n) (hnd : cbits.Nodup) (hlt : ∀ c ∈ cbits, c < 64)
+    {K : VecState α × List Nat → R} {g : List α × Nat → R} (hK : Mult n N K g) (hg : Scales (P := P) toR g) :
+    expectOrd ord toR (execOp (vecBackend (α := α) (P := P)) (mkState n N rs) (mkReg rs) (.measureAll cbits .Z)) K =
+      value (stepGf (P := P) n (.measureAll cbits .Z) g) rs := by
+  obtain ⟨body, heq, hbody⟩ := measureAll_eq hord hgood.toShape hlen hlt
+  simp only [execOp, withBasisAll, vecBackend]
+  rw [heq]
+  have hl : (rs.map fun r => (r.2.1.map SimAmp.normSq, r.1)) =
+      (rs.map fun r => (r.2.1.map SimAmp.normSq, r.1,
+        fun idx => g ((basisV n idx : List α), nwAll n cbits r.2.2 idx))).map fun it => (it.1, it.2.1) := by
+    simp [List.map_map, Function.comp_def]
+  rw [hl, sampleAll_expect ord (⇑toR) K _ body 1]
+  · simp only [one_mul, List.map_map, value, Function.comp_def]
+    congr 1
+    apply List.map_congr_left
+    intro r hr
+    rw [measureAll_sum_eq hord toR H hlen hnd hlt hg r.2.1 (hgood.len r hr)]
+  · intro it hit
+    simp only [List.mem_map] at hit
+    obtain ⟨r, hr, rfl⟩ := hit
+    exact H.wts.weightsOk r.2.1 (hgood.normed r hr)
+  · intro ts hts
+    have hv : TalliesOK n rs ts := by
+      rw [List.forall₂_map_left_iff] at hts
+      refine forall₂_imp_mem ?_ hts
+      intro r hr t ht
+      simp only [List.length_map] at ht
+      exact ⟨by rw [ht.1, hgood.len r hr], ht.2⟩
+    rw [hbody ts hv, expectOrd_pure, hK _ (good_collapseAll hord H.amp H.sim n cbits hgood hv),
+      value_collapseAll hord n cbits g hv, one_mul]
+
+end step
+
 end Q1t.Sim.SimGF
